@@ -352,11 +352,16 @@ func (g *Generator) AdjustOomScoreAdj(score *nri.OptionalInt) {
 // AdjustDevices adjusts the (Linux) devices in the OCI Spec.
 func (g *Generator) AdjustDevices(devices []*nri.LinuxDevice) {
 	for _, d := range devices {
+		if key, marked := d.IsMarkedForRemoval(); marked {
+			g.RemoveDevice(key)
+		}
+	}
+	for _, d := range devices {
 		key, marked := d.IsMarkedForRemoval()
-		g.RemoveDevice(key)
 		if marked {
 			continue
 		}
+		g.RemoveDevice(key)
 		g.AddDevice(d.ToOCI())
 		major, minor, access := &d.Major, &d.Minor, d.AccessString()
 		g.AddLinuxResourcesDevice(true, d.Type, major, minor, access)
